@@ -42,6 +42,25 @@ type c09Family struct {
 	seeded  bool            // generated from Params["g"] (see gen.go); gen is ignored
 }
 
+// c09Program splits a workload text into modules at lines `//// module <name>` (the part before the first
+// such line is the entry module).
+func c09Program(src string) Program {
+	p := Program{Entry: "main", Modules: map[string]string{}}
+	name := "main"
+	var b strings.Builder
+	for _, ln := range strings.SplitAfter(src, "\n") {
+		if strings.HasPrefix(ln, "//// module ") {
+			p.Modules[name] = b.String()
+			b.Reset()
+			name = strings.TrimSpace(strings.TrimPrefix(ln, "//// module "))
+			continue
+		}
+		b.WriteString(ln)
+	}
+	p.Modules[name] = b.String()
+	return p
+}
+
 func (f c09Family) source(spec RunSpec, d int) string {
 	if f.seeded {
 		return genProgram(uint64(spec.P("g", 1)), "leak", d)
@@ -132,6 +151,18 @@ fn main() { let a = 0; for i in 0..9000 { a = (a + i) %% 7; } println("r", r(%d)
 		return fmt.Sprintf(`fn f() -> int { %s }
 fn main() { let a = 0; let i = 0; while i < 9000 { i = i + 1; a = (a + i) %% 5; } println("x", f(), a); }`, nest(d))
 	}},
+	// recursion that alternates between two modules (the way back goes through a function value):
+	// the call depth is the program's, not a module's
+	{name: "recursion-across-modules", interp: true, depthOf: func(d int) int { return 2*d + 2 }, gen: func(d int) string {
+		return fmt.Sprintf(`import { pong } from lib;
+let depth = 0;
+fn ping() { if depth > 0 { depth = depth - 1; pong(ping); } }
+fn main() { depth = %d; ping(); println("r", depth); }
+//// module lib
+pub fn pong(back: fn() -> null) { back(); }
+fn main() {}
+`, d)
+	}},
 	{name: "loop-calls", leak: true, interp: true, depthOf: func(d int) int { return 4 }, gen: func(d int) string {
 		return fmt.Sprintf(`fn c3(x: int) -> int { let t = [x, x + 1]; t[0] + t[1] }
 fn c2(x: int) -> int { let y = c3(x); y + 1 }
@@ -220,6 +251,9 @@ func init() {
 		leakFamily("break-in-try-in-loop", "", `let k = 0; loop { k = k + 1; try { if k > 2 { break; } } catch e { y = 0; } }`),
 		leakFamily("object-and-index", "", `let o = new { a: [i, i + 1], b: "s" }; y = o.a[1] + o.b.len();`),
 		leakFamily("option-unwrap", "", `let o = ?i; y = o.unwrap_or(0);`),
+		leakFamily("return-before-lambda", "fn pick(i: int) -> int { if i % 2 == 0 { return i; } let f = fn(x: int) -> int { x + 1 }; if i % 3 == 0 { return f(i); } f(i) + 1 }", `y = y + pick(i) % 5;`),
+		leakFamily("lambda-made-and-called", "", `let f = fn(x: int) -> int { if x > 3 { return x; } x * 2 }; y = y + f(i % 7) % 5;`),
+		leakFamily("return-from-nested-blocks", "fn deepret(i: int) -> int { let a = i; { let b = a + 1; { let c = b + 1; if c % 2 == 0 { return c; } { let d = c + 1; if d % 3 == 0 { return d; } } } } a }", `y = y + deepret(i) % 5;`),
 	)
 }
 
@@ -240,7 +274,7 @@ type c09Run struct {
 
 // c09Exec runs one program under the given limits.
 func c09Exec(t *testing.T, spec RunSpec, src string, backend int, limits runtime.CoreLimits, treeLimit uint, measure bool) (*simrt.Result, *c09Run, error) {
-	prog, err := MustCompile(Single(src))
+	prog, err := MustCompile(c09Program(src))
 	if err != nil {
 		return nil, nil, fmt.Errorf("workload does not compile: %v\n%s", err, src)
 	}
